@@ -553,6 +553,14 @@ def prepare(ck, need_driver=True, coq_targets=None):
             if not res["ok"]:
                 ck.proof_broken.append("props/%s.v: %s" % (ck.prop, tail_err(res["log"])))
             ck.axioms = res.get("axioms", [])
+            # thorough tier: the compiled theorems and everything they depend on are re-checked by the independent checker
+            if ck.tier == "thorough" and res["ok"]:
+                rcq, outq = sh(["coqchk", "-o", "-silent", "-Q", "theories", "PV", "-Q", "proofs", "PV", "-Q", "gen", "PV", "-Q", "props", "PV",
+                                "PV." + ck.prop], cwd=COQ, timeout=1800)
+                ck.coqchk = "axioms: <none>" if "* Axioms: <none>" in outq else "FAILED"
+                if rcq != 0 or "* Axioms: <none>" not in outq or "type-in-type: <none>" not in outq \
+                        or "unsafe (co)fixpoints: <none>" not in outq or "positivity is assumed: <none>" not in outq:
+                    ck.proof_broken.append("coqchk: " + outq.strip()[-600:])
         ck.coq_s = time.time() - t
         if need_driver:
             t = time.time()
@@ -631,7 +639,8 @@ class Check:
             coverage.setdefault("distinct_nontrivial", 0)
         coverage.setdefault("theorems", self.theorems)
         coverage.setdefault("axioms_reported", self.axioms)
-        coverage.setdefault("checker_cmd", "cd /verif/coq && make -j16 && coqc props/%s.v (Print Assumptions parsed; forbidden-vernacular scan)" % self.prop)
+        coverage.setdefault("checker_cmd", "cd /verif/coq && make -j16 && coqc props/%s.v (Print Assumptions parsed; forbidden-vernacular scan)%s"
+                            % (self.prop, "; coqchk -o -silent PV.%s: %s" % (self.prop, getattr(self, "coqchk", "not run")) if self.tier == "thorough" else ""))
         coverage.setdefault("trusted_base", TRUSTED_BASE)
         coverage.setdefault("proof_broken", self.proof_broken)
         coverage.setdefault("timing", {"coq_s": round(self.coq_s, 1), "cargo_s": round(self.build_s, 1)})
